@@ -297,6 +297,37 @@ def set_meta(rnd, mod, spec, depth):
             mm.message_parameter = rnd.randrange(65536)
 
 
+def meta_negmin(rnd, spec, n=6):
+    """A MetaModule whose user-defined controllers mirror controllers with a NEGATIVE minimum (their stored form is
+    offset by the target's minimum), values given on the stored side."""
+    import rv.api as api
+    cl = classes()
+    cands = [(t, k, c) for t, st in sorted(spec.items()) if t in cl and t not in ("MetaModule", "SpectraVoice")
+             for k, c in enumerate(st["ctls"]) if c["kind"] in ("range", "nooffset", "compact") and c["min"] < 0]
+    mm = api.m.MetaModule()
+    emb = api.Project()
+    mm.project = emb
+    emb.metamodule = mm
+    picks = rnd.sample(cands, min(n, len(cands)))
+    for j, (t, k, c) in enumerate(picks):
+        tm = emb.new_module(cl[t])
+        mm.mappings.values[j].module = tm.index
+        mm.mappings.values[j].controller = k
+    mm.user_defined_controllers = len(picks)
+    try:
+        mm.update_user_defined_controllers()
+    except Exception:
+        pass
+    for j, (t, k, c) in enumerate(picks):
+        try:
+            mm.set_raw("user_defined_%d" % (j + 1), rnd.choice([0, 1, c["max"] - c["min"], rnd.randrange(c["max"] - c["min"] + 1)]) if c["kind"] != "nooffset"
+                       else rnd.randint(c["min"], c["max"]))
+        except Exception:
+            pass
+    set_common(rnd, mm, False)
+    return mm
+
+
 def chain_meta(rnd, spec, width=None):
     """A MetaModule whose user-defined controllers are chained through NESTED MetaModules (depth 2) onto controllers of
     different kinds - boolean, enumeration, zero-based and offset ranges - at the same slot numbers of the nested ones."""
